@@ -296,6 +296,45 @@ func H_C10_copied_trie_is_unaffected_by_later_writes() {
 	verifAssert(bytes.Equal(g1, v1) && bytes.Equal(g2, v2), "copy-keeps-its-values")
 }
 
+// Nodes that come back from the node database's memory cache (simplifyNode on the way in, expandNode
+// on the way out - what a reopened trie resolves its hashes to before the cache is flushed) behave
+// like the nodes that went in: same structure, and after any further insert or delete the trie built on
+// them has the same root and structure as the trie that never left memory. (A reloaded node may carry
+// a cached hash only if that hash is its own: embedded children have none.)
+//verif:opt unwind=24 budget_s=900 split=32
+func H_C10_nodes_reloaded_from_the_cache_rehash_like_the_originals() {
+	k1, k2 := c10Key(), c10Key()
+	verifAssume(!bytes.Equal(k1, k2))
+	v1, v2 := verifNondetBytes(1), verifNondetBytes(1) // short values: small nodes are embedded in their parents
+	a := &Trie{}
+	a.TryUpdate(k1, v1)
+	a.TryUpdate(k2, v2)
+	root := a.Hash()
+	// what Commit hands to the database for the root: its collapsed form (compact keys, small children
+	// embedded - with one-byte values everything is embedded, so the reloaded trie is complete)
+	h := newHasher(0, 0, nil)
+	collapsed, _, err := h.hashChildren(a.root, nil)
+	if err != nil {
+		panic(err)
+	}
+	reloaded := expandNode(hashNode(root[:]), simplifyNode(collapsed), 0)
+	b := &Trie{root: reloaded}
+	verifReach("reloaded")
+	verifAssert(c10Equal(a.root, b.root), "reloaded-node-has-the-structure-that-was-stored")
+	verifAssert(b.Hash() == root, "reloaded-trie-has-the-stored-root")
+	k3 := c10Key()
+	if verifNondetBool() {
+		v3 := verifNondetBytes(1)
+		a.TryUpdate(k3, v3)
+		b.TryUpdate(k3, v3)
+	} else {
+		a.TryDelete(k3)
+		b.TryDelete(k3)
+	}
+	verifAssert(c10Equal(a.root, b.root), "reloaded-trie-updates-to-the-same-structure")
+	verifAssert(a.Hash() == b.Hash(), "reloaded-trie-updates-to-the-same-root")
+}
+
 type c10ProofDB struct{ m map[string][]byte }
 
 func (d *c10ProofDB) Put(key []byte, value []byte) error { d.m[string(key)] = value; return nil }
